@@ -224,19 +224,33 @@ bool exec_arith(ExecCtx &c) {
       T s = scalar_choice(op.c);
       std::visit(
           [&](auto &x) {
+            using X = std::decay_t<decltype(x)>;
             const char *site = op.kind == OP_P_ISCALE ? "Spline::operator*=" : "Spline::operator/=";
+            // the scalar is passed by reference: one call in seven hands in one
+            // of the target's own coefficients (its value at the time of the
+            // call is the scalar the property speaks about)
+            const T *sp = &s;
+            if (op.c % 7 == 6) {
+              sim::Exempt e;
+              const auto &cs = x.getCoefficients();
+              if (!cs.empty()) {
+                sp = &cs[op.d % cs.size()][(op.d / 8) % (X::spline_order + 1)];
+                probe(PR_ALIAS_SCALAR);
+              }
+            }
 #ifdef SIM_EXACT
             Fn fx = fn_of(x);
+            Val sval = sp->raw();
 #endif
             libcall(out, [&] {
-              if (op.kind == OP_P_ISCALE) x *= s;
-              else x /= s;
+              if (op.kind == OP_P_ISCALE) x *= *sp;
+              else x /= *sp;
             });
             c03_must_succeed(c, true, site);
             if (out.status == ST_OK) {
               out.obs = hmix(out.obs, hash_spline(x));
 #ifdef SIM_EXACT
-              Val f = op.kind == OP_P_IDIV ? Val(Val(1) / s.raw()) : s.raw();
+              Val f = op.kind == OP_P_IDIV ? Val(Val(1) / sval) : sval;
               c03_compare(c, x, fn_scale(fx, f), "scalar-multiple-wrong", site);
 #else
               (void)site;
